@@ -104,6 +104,9 @@ def handle (fn : String) (args : List String) : Option (String × String) := do
     let n ← parseNat nS
     let hs ← hists.mapM parseHistX
     if (isCopy && hs.length ≠ 3) || (!isCopy && hs.length ≠ 1) then none
+    -- a slice of zero-sized elements can be 2^64 - 1 long; the list-based model cannot hold that many elements:
+    -- such rows are implementation vs std only (`?` = no model answer)
+    if len > 1000000 then return ("?", "?")
     let l := List.range len
     let sl := showIdxList zst
     let s1 : Nat → String := fun x => sl [x]
